@@ -91,3 +91,30 @@ Fixpoint allsky_from (tbl : list (string * (string * bool * bool)))
       else allsky_from r eq_lit is_true
   end.
 Definition tile_allsky_impl_model := allsky_from projection_table.
+
+(* ---- toasty view, local branch (cli.py:936-973): the tiling-method name selects the TilingMethod;
+   the collection is loaded from the paths AS GIVEN with the loader built from the settings
+   (--hdu-index, --wcs-key, --blankval); the tiler gets --parallelism; with --tile-only nothing is
+   previewed ---- *)
+Definition view_collection : sval unit :=
+  SCallA "load_paths" (SCallA "create_from_args" (SName "CollectionLoader") [SName "settings"] []) [setting "paths"] [].
+Definition view_tiler (method : string) : sval unit :=
+  SNewP "FitsTiler" [view_collection] [("tiling_method", SAttr method (SName "TilingMethod"))].
+Definition view_calls (method : string) (is_true : sval unit -> bool) : list (sevent unit) :=
+  [ SMethod (SName "warnings") "simplefilter" [SStr "ignore"] [];
+    SMethod (view_tiler method) "tile" [] [("cli_progress", SB true); ("parallel", setting "parallelism")] ]
+  ++ (if is_true (setting "tile_only") then []
+      else [SCall "preview_wtml"
+                  [SCallA "join" (SAttr "path" (SName "os")) [SAttr "out_dir" (view_tiler method); SStr "index_rel.wtml"] []]
+                  [("browser", setting "browser"); ("app_type", SStr "research"); ("app_url", setting "appurl")]]).
+
+Definition tiling_method_table : list (string * string) :=
+  [("auto", "AUTO_DETECT"); ("tan", "TAN"); ("toast", "TOAST"); ("hips", "HIPS")].
+
+Fixpoint view_from (tbl : list (string * string)) (eq_lit : sval unit -> string -> bool) (is_true : sval unit -> bool)
+  : bool * list (sevent unit) :=
+  match tbl with
+  | [] => (false, [])
+  | (name, m) :: r => if eq_lit (setting "tiling_method") name then (true, view_calls m is_true) else view_from r eq_lit is_true
+  end.
+Definition view_locally_model := view_from tiling_method_table.
